@@ -82,7 +82,7 @@ check("C14", "Go race detector (-race build) over barrier-released goroutine rou
       "Trusted base: the Go race detector (sees only races on executed paths within its shadow window) and toolchain. Counting hooks are disabled in this build (plain variables by design).", "DESIGN.md §5 C14")
 check("C15", "five-configuration relational monitor (default / reporting / fail-on-validation-error / both in either order) + error classification against the constants of package errors",
       "Parses every generated (input, base) under the diagnostic configurations and checks the relations of the property between the runs, the documented type and failure flag of every returned "
-      "error and the non-fatal flag of every recorded entry; reporting must also be neutral when added to sampled parser/canonicalizer configurations. The documented set is read from the constant declarations of /repo/errors/*.go at run time.",
+      "error and the non-fatal flag of every recorded entry; reporting must also be neutral when added to sampled parser/canonicalizer configurations, also after every step of a setter history on both URLs (rejected values, the same text given to several setters). The documented set is read from the constant declarations of /repo/errors/*.go at run time.",
       TRUST_REL, "DESIGN.md §5 C15")
 check("C16", "per-clause differential monitors between parsers built from different option lists; parameterised reference model for replaced encode sets and added special schemes",
       "One sub-check per clause of the property: no-option equivalence, remove-* == setters with \"\" (model and implementation oracles), sort-query postconditions, default-scheme retry, conservative "
@@ -90,19 +90,19 @@ check("C16", "per-clause differential monitors between parsers built from differ
       "KF-B3 (sort re-serializes with the known serializer) is recognised by exact prediction.",
       TRUST_MODEL, "DESIGN.md §5 C16")
 check("C17", "idempotence (fixed-point) runtime monitor over 98 option-composed profiles on all strings and GSB/Semantic on the ordinary-web-URL grammar",
-      "Canonicalizes, canonicalizes the result again and compares. Non-idempotence caused by the open findings (KF-A host, KF-B2 query re-serialization predicted exactly, KF-C opaque host decoding) "
+      "Canonicalizes, canonicalizes the result again and compares (web grammar incl. long tokens up to 4 100 characters, nesting up to 14 levels, empty parameter names). Non-idempotence caused by the open findings (KF-A host, KF-B2 query re-serialization predicted exactly, KF-C opaque host decoding) "
       "is recognised by classifiers over the witness; anything else is a violation.",
       TRUST_REL, "DESIGN.md §5 C17")
 check("C18", "metamorphic runtime monitor: two independently varied spellings of one abstract ordinary web URL must canonicalize to the same string",
       "Generates abstract URLs of the property's grammar and spells each twice with the listed variations (all of them for profiles with repeated decoding, the standard-normalised subset for every "
       "profile incl. the 96 compositions) and requires equal canonical strings.",
       TRUST_REL, "DESIGN.md §5 C18")
-check("C19", "invariant monitor on derived accessors after every step of parse/setter/resolve/clone histories",
+check("C19", "invariant monitor on derived accessors after every step of parse/setter/resolve/clone/SearchParams histories (incl. setters discovered by reflection)",
       "IsIPv4, IsIPv6, DecodedPort, Protocol/Scheme, Search/Query, Hash/Fragment, OpaquePath and IsSpecialScheme are recomputed from the primary components and the serialization and compared after every step - also for parsers with custom special-scheme tables (against that table) and under sampled parser configurations.",
       TRUST_REL, "DESIGN.md §5 C19")
 check("C20", "resource monitor: fitted growth exponent of allocated bytes (MemStats, GC off), hook-counted parser work and thread CPU time over repetition families",
       "For 131 repetition families (one and two long components; non-ASCII and invalid bytes in every component; families under the relaxing options and under reporting; every setter on a reporting-mode URL; repeated long tokens up to 1 MiB) and n = 2^10..2^14 (2^18 thorough) the log-log slope of deterministic cost measures (allocated bytes, parser steps + cursor moves) must stay below 1.35; thread CPU time "
-      "only confirms (slope > 1.5, > 50 ms, twice), otherwise inconclusive. Wall-clock time is never used.",
+      "only confirms (slope > 1.5, > 50 ms, twice; a suspicious slope below 50 ms is followed to inputs 4x and 16x longer first), otherwise inconclusive. Wall-clock time is never used.",
       "Trusted base: Go runtime memory statistics and the counting hooks. Growth beyond the measured sizes or for unlisted fragments is out of reach.", "DESIGN.md §5 C20")
 
 NOT_BUILT = "check not built yet (work in progress; see DESIGN.md §5)"
